@@ -28,7 +28,31 @@ BENIGN_COLUMNS = ["id", "name", "title", "created_at", "ids", "owner_id", "price
 BENIGN_QNAMES = ["GetOne", "ListAll", "Create", "Remove", "Touch", "CountThem", "FindByTime", "FindByIds"]
 
 
+MYSQL_TYPES = ["int", "integer", "smallint", "mediumint", "bigint", "tinyint", "tinyint(1)", "bool", "year", "varchar(10)", "text", "char(3)", "longtext", "blob", "binary(4)",
+               "varbinary(8)", "double", "float", "real", "decimal(10,2)", "numeric(5)", "date", "timestamp", "datetime", "time", "json", "float(7,2)", "double precision", "bit(1)", "bit(8)"]
+
+
+def gen_input_mysql(rng):
+    """a MySQL package: every column type, nullable and not, in models, parameters and results"""
+    lines, queries = [], []
+    for ti in range(rng.randint(1, 2)):
+        cols = [("id", "int", True)] + [("c%d" % j, rng.choice(MYSQL_TYPES), rng.random() < 0.5) for j in range(rng.randint(2, 5))]
+        lines.append("CREATE TABLE t%d (%s);" % (ti, ", ".join("%s %s%s" % (c, ty, " NOT NULL" if nn else "") for c, ty, nn in cols)))
+        c1, c2 = rng.choice(cols)[0], rng.choice(cols)[0]
+        queries.append("-- name: Get%d :one\nSELECT * FROM t%d WHERE %s = ?;" % (ti, ti, c1))
+        queries.append("-- name: List%d :many\nSELECT %s, %s FROM t%d WHERE %s = ? AND %s = ?;" % (ti, c1, c2, ti, c1, c2))
+        queries.append("-- name: One%d :one\nSELECT %s FROM t%d WHERE id = ?;" % (ti, c2, ti))
+        queries.append("-- name: Ins%d :exec\nINSERT INTO t%d (%s) VALUES (%s);" % (ti, ti, ", ".join(c for c, _, _ in cols), ", ".join("?" for _ in cols)))
+    pkg = {"path": "db", "engine": "mysql", "schema": "schema.sql", "queries": "query.sql"}
+    for f in FLAGS:
+        if rng.random() < 0.3:
+            pkg[f] = True
+    return {"sqlc.json": json.dumps({"version": "1", "packages": [pkg]}), "schema.sql": "\n".join(lines) + "\n", "query.sql": "\n\n".join(queries) + "\n"}
+
+
 def gen_input(rng):
+    if rng.random() < 0.05:
+        return gen_input_mysql(rng)
     benign = rng.random() < 0.55
     tables, columns, qnames = (BENIGN_TABLES, BENIGN_COLUMNS, BENIGN_QNAMES) if benign else (TABLES, COLUMNS, QNAMES)
     return gen_input_from(rng, tables, columns, qnames, benign)
@@ -94,7 +118,7 @@ def gen_input_from(rng, TABLES, COLUMNS, QNAMES, benign):
                            % (nm, rng.choice(["exec", "execrows", "execresult"]), q(t), q(c1), q(c2),
                               rng.choice(["*", ", ".join(q(c) for c in cs[:2]), q(c1)])))
     flags = [f for f in FLAGS if rng.random() < 0.35]
-    files_split = benign and len(queries) > 1 and rng.random() < 0.4
+    files_split = len(queries) > 1 and rng.random() < (0.4 if benign else 0.3)
     pkg = {"path": "db", "engine": "postgresql", "schema": "schema.sql", "queries": ["query.sql", "more.sql"] if files_split else "query.sql"}
     for f in flags:
         pkg[f] = True
@@ -304,6 +328,8 @@ def run(tier, seed):
                             klass = "duplicate_method_or_field"
                         elif twice:
                             klass = "duplicate_params_field_for_placeholder_twice_in_one_call"
+                        elif any(("%s redeclared" % v_) in " ".join(es) for v_ in json.loads(inputs[i]["sqlc.json"]).get("rename", {}).values()):
+                            klass = "rename_target_collides_with_another_field"
                         else:
                             klass = None
                     if wf == 3:
@@ -322,6 +348,7 @@ def run(tier, seed):
             if p.returncode != 0 and not errs:
                 rep.violation("go build failed without attributable errors: " + p.stdout[-300:], {}, no_input=True)
             # the import half: importer vs Model/GoImports, emitted qualifiers vs Spec/GoFileUses, needed = present
+            idxs = [i for i in idxs if '"engine": "mysql"' not in inputs[i]["sqlc.json"]]      # the generator's data layer is modelled for PostgreSQL
             gres = run_harness([{"op": "gogen", "files": inputs[i]} for i in idxs])
             gok = [(i, g) for i, g in zip(idxs, gres) if g.get("ok")]
             for i, g in zip(idxs, gres):
